@@ -347,20 +347,33 @@ class Taint:
 
     def __init__(self, ctx, m, f: FuncInfo):
         self.ctx, self.m, self.f = ctx, m, f
-        self.reasons = []
+        self.reasons = []  # positively unsafe sources (unvalidated string parameters)
+        self.unknown = []  # expressions whose provenance could not be followed
         self.stack = set()
 
     def dict_values_safe(self, dname, depth) -> bool:
         """every `dname[k] = v` stores a safe v"""
+        from ..model import FuncInfo as _FI
+
+        scope = self.f
+        # a free variable of a nested helper: the stores are in the enclosing function
+        while isinstance(scope, _FI) and dname not in scope.local_names() and dname not in scope.params and isinstance(scope.parent, _FI):
+            scope = scope.parent
         stores = []
-        for n in walk_scope(self.f.node):
+        for n in walk_scope(scope.node):
             if isinstance(n, ast.Assign):
                 for t in n.targets:
                     if isinstance(t, ast.Subscript) and isinstance(t.value, ast.Name) and t.value.id == dname:
                         stores.append(n.value)
         if not stores:
+            self.unknown.append(f"dict {dname}")
             return False
-        return all(self.safe(v, depth + 1) for v in stores)
+        owner = self if scope is self.f else Taint(self.ctx, self.m, scope)
+        ok = all(owner.safe(v, depth + 1) for v in stores)
+        if owner is not self:
+            self.reasons += owner.reasons
+            self.unknown += owner.unknown
+        return ok
 
     def param_iter_var(self, name) -> bool:
         """name is bound by `for name in <list of inspect.Parameter>` / `[name] = <list>`"""
@@ -369,6 +382,11 @@ class Taint:
                 return True
             if isinstance(n, ast.Assign) and isinstance(n.targets[0], (ast.List, ast.Tuple)) and len(n.targets[0].elts) == 1 \
                     and isinstance(n.targets[0].elts[0], ast.Name) and n.targets[0].elts[0].id == name:
+                return True
+        if name in getattr(self, "_comp_vars", set()):
+            return True
+        for n in ast.walk(self.f.node):
+            if isinstance(n, ast.comprehension) and isinstance(n.target, ast.Name) and n.target.id == name:
                 return True
         return name in self.f.params and name == "p"
 
@@ -412,11 +430,27 @@ class Taint:
                 if isinstance(a, ast.Name):
                     return self.list_safe(a.id, depth + 1)
                 return False
-            if isinstance(e.func, ast.Name) and e.func.id == "str" and len(e.args) == 1:
+            if t.kind == "func":
+                # a helper (nested or module-level): every value it returns must be safe
+                sub = Taint(self.ctx, self.m, t.target)
+                rets = [x.value for x in walk_scope(t.target.node) if isinstance(x, ast.Return) and x.value is not None]
+                if rets and all(sub.safe(v, depth + 1) for v in rets):
+                    return True
+                self.reasons += sub.reasons
+                self.unknown += sub.unknown or [f"helper {t.target.name}"]
                 return False
+            self.unknown.append(norm(e)[:50])
             return False
         if isinstance(e, ast.Attribute) and e.attr == "name" and isinstance(e.value, ast.Name) and self.param_iter_var(e.value.id):
             return True  # inspect.Parameter.name is an identifier by construction
+        if isinstance(e, (ast.ListComp, ast.GeneratorExp)):
+            comp_vars = {g.target.id for g in e.generators if isinstance(g.target, ast.Name)}
+            self._comp_vars = getattr(self, "_comp_vars", set()) | comp_vars
+            return self.safe(e.elt, depth + 1)
+        if isinstance(e, (ast.List, ast.Tuple)):
+            return all(self.safe(x, depth + 1) for x in e.elts)
+        if isinstance(e, ast.IfExp):
+            return self.safe(e.body, depth + 1) and self.safe(e.orelse, depth + 1)
         if isinstance(e, ast.Subscript) and isinstance(e.value, ast.Name):
             return self.dict_values_safe(e.value.id, depth)
         if isinstance(e, ast.Name):
@@ -448,9 +482,12 @@ class Taint:
                     # a parameter that is also re-assigned: the parameter value itself may flow here
                     self.reasons.append((e, f"`{key}` may still hold the unvalidated parameter value"))
                     ok = False
+                if not defs:
+                    self.unknown.append(key)
                 return ok and bool(defs)
             finally:
                 self.stack.discard(key)
+        self.unknown.append(norm(e)[:50])
         return False
 
     def list_safe(self, lname, depth) -> bool:
@@ -473,7 +510,7 @@ class Taint:
                         i = self.f.params.index(h.value.id)
                         if i < len(call.args) and isinstance(call.args[i], ast.Name) and caller.dict_values_safe(call.args[i].id, 0):
                             continue
-                    self.reasons.append((h, f"hole `{norm(h)}` of the argument template is not a parameter name or a generated name"))
+                    self.unknown.append(f"hole `{norm(h)}` of the argument template")
                     return False
             return True
         return isinstance(v, ast.Constant)
@@ -499,6 +536,9 @@ def check_template_hygiene(ctx, r):
         t = Taint(ctx, m, f)
         if t.safe(h):
             ctx.ok("C07.5", f.qualname, f"template hole `{norm(h)}` is filled only from literals, generated names and parameter names")
+        elif not t.reasons:
+            # nothing positively unsafe was found: the provenance could simply not be followed
+            raise AnalysisError(f"C07.5: the provenance of template hole `{{{norm(h)}}}` could not be followed ({'; '.join(t.unknown[:2]) or 'unrecognised expression'})")
         else:
             why = "; ".join(sorted({x[1] for x in t.reasons})) or "provenance not proven identifier-safe"
             ctx.bad("C07.5", f, tpl, f"hole `{{{norm(h)}}}` of the generated `def` is filled from a string that is not proven to be an "
@@ -534,15 +574,17 @@ def check_template_hygiene(ctx, r):
     ctx.floor("C07.5", "gensym_calls", 3)
     gs = m.func("_decorator._gensym")
     ctx.saw(gs)
-    loops = [x for x in walk_scope(gs.node) if isinstance(x, ast.While)]
-    ok = False
-    for lp in loops:
-        if isinstance(lp.test, ast.Compare) and isinstance(lp.test.ops[0], ast.In) and norm(lp.test.comparators[0]) == gs.params[0]:
-            ok = True
-    if ok:
-        ctx.ok("C07.5", gs.qualname, "retries while the candidate is in the set of names to avoid")
+    # the candidate is compared with the names to avoid inside a loop that advances it
+    names_p = gs.params[0]
+    tests = [x for x in walk_scope(gs.node) if isinstance(x, ast.Compare) and len(x.ops) == 1 and isinstance(x.ops[0], (ast.In, ast.NotIn)) and norm(x.comparators[0]) == names_p]
+    in_loop = [t for t in tests if any(isinstance(lp, (ast.While, ast.For)) and any(y is t for y in ast.walk(lp)) for lp in walk_scope(gs.node))]
+    if in_loop:
+        ctx.ok("C07.5", gs.qualname, f"retries until the candidate is absent from the names to avoid (`{norm(in_loop[0])}` inside a loop)")
+    elif tests:
+        raise AnalysisError("C07.5: _gensym tests the candidate against the names to avoid, but not in a recognised retry loop")
     else:
-        ctx.bad("C07.5", gs, gs.node, "_gensym no longer loops until the candidate is absent from the names to avoid", construct="_gensym: no `while cand in names` loop")
+        ctx.bad("C07.5", gs, gs.node, "_gensym never compares its candidate with the names to avoid: the generated name can collide with a parameter / a name already in scope",
+                construct="_gensym: no membership test against the names to avoid")
 
 
 # ------------------------------------------------------------------------ C07.6
@@ -584,6 +626,12 @@ def check_param_kinds(ctx, r, tag):
                         isinstance(c, ast.Call) and isinstance(c.func, ast.Attribute) and c.func.attr == "append" and norm(c.func.value).startswith("argstr") for c in ast.walk(x)):
                     emits = True
                 if isinstance(x, ast.Assign) and isinstance(x.value, ast.Name) and x.value.id == l and isinstance(x.targets[0], (ast.List, ast.Tuple)):
+                    emits = True
+                # `argstr_pieces.extend(<something built from the list>)` / `+=`
+                if isinstance(x, ast.Call) and isinstance(x.func, ast.Attribute) and x.func.attr in ("extend", "append") and norm(x.func.value).startswith("argstr") \
+                        and any(isinstance(y, ast.Name) and y.id == l for a in x.args for y in ast.walk(a)):
+                    emits = True
+                if isinstance(x, ast.AugAssign) and norm(x.target).startswith("argstr") and any(isinstance(y, ast.Name) and y.id == l for y in ast.walk(x.value)):
                     emits = True
             if emits:
                 order.setdefault(kind, []).append(idx)
